@@ -6,6 +6,7 @@ if [ "$1" = "--one" ]; then
   SNAP=$2; d=$3; S=$(mktemp -d /tmp/w2c2-replay-seed1.XXXXXX); trap 'rm -rf "$S"' EXIT
   id=$(basename "$d"); pid=$(python3 -c "import json;print(json.load(open('$d/meta.json'))['property'])")
   mkdir -p "$S/repo"; (cd /repo && cp -r w2c2 wasi futex "$S/repo/")
+  cp -al /verif/.cache "$S/cache" 2>/dev/null || mkdir -p "$S/cache"; export VERIF_CACHE_DIR="$S/cache"
   if ! patch -s -p1 -d "$S/repo" < "$d/patch.diff" >/dev/null 2>&1; then echo "SKIP $id (patch does not apply to the current tree)"; exit 0; fi
   VERIF_REPO="$S/repo" VERIF_EVIDENCE_DIR="$S/ev" "$SNAP/check" "$pid" --tier quick > "$S/out" 2>&1; rc=$?
   if [ $rc -eq 1 ] && grep -q '^VIOLATION' "$S/out"; then echo "DETECTED $id ($pid)"; else echo "NOT DETECTED $id ($pid): exit $rc: $(tail -1 "$S/out" | cut -c1-160)"; fi
